@@ -322,6 +322,19 @@ func makeCreatorRaw(mspID string, idBytes []byte) []byte {
 	return b
 }
 
+// bundleCreator: a serialized identity whose certificate bytes are several PEM blocks, those of the given identities in
+// their order (a certificate chain file). The library reads the first one.
+func bundleCreator(ids ...*Identity) []byte {
+	var pems []byte
+	for _, id := range ids {
+		var si msp.SerializedIdentity
+		if proto.Unmarshal(id.Creator, &si) == nil {
+			pems = append(pems, si.GetIdBytes()...)
+		}
+	}
+	return makeCreatorRaw("verifMSP", pems)
+}
+
 func NewECIdentity(name, ou string) *Identity { return NewECIdentityOUs(name, []string{ou}) }
 
 // NewECIdentityOUs: a certificate with any list of organisational units (none at all is legal X.509).
